@@ -46,6 +46,9 @@ def spd_cases(chk):
         sq = well_conditioned(rng, "Square", n, 1, 2)
         out.append(("gram", gen.qsm_impl(sq).gram()))
         out.append(("hadamard", S1 * S2))
+        # the factorisation is homogeneous: chol(s A) = sqrt(s) chol(A); tiny and huge overall scales
+        for sc in (1e-20, 1e-9, 1e12):
+            out.append((f"scaled*{sc:g}", S1 * sc))
     return out
 
 
@@ -67,8 +70,8 @@ def run(chk):
         n = s["n"]
         D = gen.den_oracle(s)
         w = np.linalg.eigvalsh((D + D.T) / 2)
-        if w.min() <= 1e-8 * max(1.0, w.max()):
-            continue   # not numerically SPD: outside the property's hypothesis
+        if w.min() <= 1e-8 * w.max():
+            continue   # not numerically SPD (relative to its own scale): outside the property's hypothesis
         conds.append(float(w.max() / w.min()))
         L = A.cholesky()
         meta, dense = impl_show(L)
@@ -79,8 +82,8 @@ def run(chk):
         hist[how] = hist.get(how, 0) + 1
         distinct.add((how, n, D.tobytes()))
         want = np.linalg.cholesky((D + D.T) / 2)
-        ok1, _ = close(Ld, want, 1e-7)
-        ok2, _ = close(Ld @ Ld.T, D, 1e-8)
+        ok1, _ = close(Ld, want, 1e-7, rel=True)
+        ok2, _ = close(Ld @ Ld.T, D, 1e-8, rel=True)
         tri = np.allclose(np.triu(Ld, 1), 0)
         pos = bool(np.all(np.diag(Ld) > 0))
         same_order = meta[2] == s["l"]["m"] and meta[1] == KIDX["Lower"]
@@ -93,13 +96,13 @@ def run(chk):
         import jax.numpy as jnp
         y = np.linspace(-1, 1, n)
         x = np.asarray(L.T.solve(L.solve(jnp.asarray(y))))
-        okx, _ = close(D @ x, y, 1e-7)
+        okx, _ = close(D @ x, y, 1e-7, rel=True)
         if not okx:
             oracle_bad.append(dict(case, what="solve L then L^T", expected=y.tolist(), observed=(D @ x).tolist()))
     model = coq_eval("c07", IMPORTS, exprs, shard=10)
     for (case, meta, dense), mv in zip(expect, model):
         mmeta, mdense = mv[:5], mv[5:]
-        ok, dv = close(mdense, dense)
+        ok, dv = close(mdense, dense, rel=True)
         maxdev = max(maxdev, dv if np.isfinite(dv) else 0)
         if [int(v) for v in mmeta] != meta or not ok:
             corr_bad.append(dict(case, model_meta=mmeta, impl_meta=meta, dev=dv))
